@@ -17,7 +17,7 @@ func rawSx(text string) sx.V {
 	return v
 }
 
-func sign(x int) int {
+func svSign(x int) int {
 	switch {
 	case x < 0:
 		return -1
@@ -40,7 +40,7 @@ func lawViolations(m []int, n, max int) sx.V {
 			return sx.L(out...)
 		}
 		for j := 0; j < n; j++ {
-			if sign(m[i*n+j]) != -sign(m[j*n+i]) && add("antisym", i, j, j) {
+			if svSign(m[i*n+j]) != -svSign(m[j*n+i]) && add("antisym", i, j, j) {
 				return sx.L(out...)
 			}
 		}
@@ -52,7 +52,7 @@ func lawViolations(m []int, n, max int) sx.V {
 				if cij <= 0 && m[j*n+k] <= 0 && m[i*n+k] > 0 && add("trans", i, j, k) {
 					return sx.L(out...)
 				}
-				if cij == 0 && sign(m[i*n+k]) != sign(m[j*n+k]) && add("congr", i, j, k) {
+				if cij == 0 && svSign(m[i*n+k]) != svSign(m[j*n+k]) && add("congr", i, j, k) {
 					return sx.L(out...)
 				}
 			}
@@ -65,6 +65,14 @@ func init() {
 	// sv_parse: (sys str) -> ("ok" dump) | ("err")
 	register("sv_parse", func(a sx.V) sx.V {
 		v, err := sysOf(a.Nth(0)).Parse(a.Nth(1).Str())
+		if err != nil {
+			return sx.L(sx.Sym("err"))
+		}
+		return sx.L(sx.Sym("ok"), rawSx(semver.VerifDump(v)))
+	})
+	// sv_parsei: (sys str) internal parse with infinity allowed
+	register("sv_parsei", func(a sx.V) sx.V {
+		v, err := semver.VerifParseInternal(sysOf(a.Nth(0)), a.Nth(1).Str(), true)
 		if err != nil {
 			return sx.L(sx.Sym("err"))
 		}
